@@ -11,11 +11,12 @@ Definition C15_holds (skip : bool) (m : msg) (o : obs) : Prop :=
      h ++ b ++ t = full /\ exists p, h = p ++ crlf ++ crlf) /\
   (forall r, ob_reparse o = Some r -> option_map canon r = Some (canon m)) /\
   (skip = true -> ob_records o = 0%nat) /\
-  ob_err o = false.
+  ob_err o = false /\
+  (forall snap ref, ob_startline o = Some (snap, ref) -> snap = ref).
 
 Lemma c15_ok_iff skip m o : c15_ok skip m o = true <-> C15_holds skip m o.
 Proof.
-  unfold c15_ok, C15_holds, forwarded_ok, sections_ok, reparse_ok, skip_ok.
+  unfold c15_ok, C15_holds, forwarded_ok, sections_ok, reparse_ok, skip_ok, startline_ok.
   rewrite !andb_true_iff, msg_eqb_eq, negb_true_iff.
   assert (Hs : match ob_sections o with
                | Some (h, b, t, full) => bytes_eqb (h ++ b ++ t) full && ends_with (crlf ++ crlf) h
@@ -43,14 +44,24 @@ Proof.
   { destruct skip.
     - rewrite Nat.eqb_eq. split; auto.
     - split; [discriminate | reflexivity]. }
-  rewrite Hs, Hr, Hk. tauto.
+  assert (Hl : match ob_startline o with
+               | Some (snap, ref) => bytes_eqb snap ref
+               | None => true
+               end = true <->
+               (forall snap ref, ob_startline o = Some (snap, ref) -> snap = ref)).
+  { destruct (ob_startline o) as [[a b]|].
+    - rewrite bytes_eqb_eq. split.
+      + intros H a' b' E. injection E as <- <-. exact H.
+      + intros H. now apply H.
+    - split; [discriminate | reflexivity]. }
+  rewrite Hs, Hr, Hk, Hl. tauto.
 Qed.
 
 (* what the model itself produces satisfies the property (the re-parse
    clause is theorem [snapshot_parseable]; it is not repeated here) *)
 Definition model_obs (lg : logger) (skip : bool) (m : msg) : obs :=
   mkObs (fst (run_logger lg skip m)) true (model_sections lg m) None
-        (List.length (snd (run_logger lg skip m))) false.
+        (List.length (snd (run_logger lg skip m))) false None.
 
 Lemma model_sections_partition lg m h b t full :
   model_sections lg m = Some (h, b, t, full) ->
@@ -70,8 +81,8 @@ Proof.
   intros G. apply c15_ok_iff. unfold C15_holds, model_obs.
   cbn. split; [split; [now apply forwarded_unchanged | reflexivity]|].
   split; [intros h b t full; apply model_sections_partition|].
-  split; [discriminate|]. split; [|reflexivity].
-  intros ->. now rewrite skip_means_unrecorded.
+  split; [discriminate|]. split; [intros ->; now rewrite skip_means_unrecorded|].
+  split; [reflexivity | discriminate].
 Qed.
 
 (* ---------------- witnesses ---------------- *)
